@@ -342,14 +342,37 @@ def check_model(ctx, m, data, idx):
         ctx.violation("apk-invalid-%s" % sp, "is_valid_APK() is False for a well-formed manifest", wit)
         return
 
+    first = {}
+    hrng = ctx.rng("c31-history", idx)
+    # history prefix: the queries that are built on other queries, asked BEFORE the ones they are built on (answers must not depend on the order)
+    prefix = [n for n in ("get_main_activity", "get_app_name", "get_main_activities", "get_permissions") if hrng.random() < 0.4]
+    hrng.shuffle(prefix)
+    wit["queries_asked_first"] = prefix
+    for n in prefix:
+        ctx.count("history_prefix_queries")
+        try:
+            getattr(a, n)()
+        except Exception:
+            pass
+
+    def norm(x):
+        if isinstance(x, (list, tuple, set, frozenset)):
+            return sorted((norm(y) for y in x), key=repr)
+        if isinstance(x, dict):
+            return sorted(((k, norm(v)) for k, v in x.items()), key=repr)
+        return x
+
     def q(name, fn):
         ctx.ev()
         ctx.count("queries")
         try:
-            return fn()
+            r = fn()
         except Exception as e:
             ctx.violation("%s-raises-%s-%s" % (name, type(e).__name__, sp), "%s raises" % name, dict(wit, exc=exc_str(e)))
             return KeyError
+        if name not in first:
+            first[name] = (fn, norm(r))
+        return r
 
     def bad(mech, what, got, want, suffix=True):
         ctx.violation(mech + ("-" + sp if suffix else ""), what, dict(wit, got=got, want=want))
@@ -453,6 +476,19 @@ def check_model(ctx, m, data, idx):
                 bad("library-name-without-dot-package-prefixed", "get_libraries prefixes the package to a library name that has no dot / a leading dot", sorted(g), sorted(want.elements()), False)
             else:
                 bad("libraries-differ", "get_libraries differs from the <uses-library> names", sorted(g), sorted(want.elements()))
+    # every query once more, in another order, on the same object: the answer must be the one given the first time
+    names = sorted(first)
+    hrng.shuffle(names)
+    for n in names:
+        fn, r1 = first[n]
+        ctx.count("queries_repeated")
+        try:
+            r2 = norm(fn())
+        except Exception as e:
+            ctx.violation("%s-raises-when-asked-again" % n, "a query that answered the first time raises when asked again on the same APK object", dict(wit, exc=exc_str(e)))
+            continue
+        if r2 != r1:
+            ctx.violation("%s-answer-changes-when-asked-again" % n, "the same query on the same APK object gives another answer the second time", dict(wit, first=r1, second=r2))
     ctx.count("cases_" + sp)
     ctx.sig(m.special, m.utf8, tuple(len(m.components[t]) for t in ("activity", "service", "receiver", "provider")), len(m.aliases), tuple(sorted(m.kinds)),
             min(len(m.perms), 3), tuple(v is None for v in m.sdk.values()), len(want_main), len(m.features) > 0, len(m.libraries) > 0)
